@@ -1,4 +1,4 @@
-CONSTANT MaxSteps = 4
+CONSTANT MaxSteps = 3
 INIT RInit
 NEXT RNext
 CHECK_DEADLOCK FALSE
